@@ -35,6 +35,40 @@ def make_exc(name, msg):
     return EXC_CLASSES[name](msg)
 
 
+class jumping_clocks:
+    """Inside the block time.monotonic / time.time / time.perf_counter (and their _ns forms) run `jump` seconds ahead from their
+    second call on."""
+    NAMES = ("monotonic", "time", "perf_counter", "process_time")
+
+    def __init__(self, jump):
+        self.jump = jump
+        self.saved = {}
+
+    def __enter__(self):
+        calls = {"n": 0}
+        for name in self.NAMES:
+            orig = getattr(time, name)
+            self.saved[name] = orig
+
+            def clock(orig=orig):
+                calls["n"] += 1
+                return orig() + (self.jump if calls["n"] > 1 else 0.0)
+            setattr(time, name, clock)
+            orig_ns = getattr(time, name + "_ns")
+            self.saved[name + "_ns"] = orig_ns
+
+            def clock_ns(orig_ns=orig_ns):
+                calls["n"] += 1
+                return orig_ns() + (int(self.jump * 1e9) if calls["n"] > 1 else 0)
+            setattr(time, name + "_ns", clock_ns)
+        return self
+
+    def __exit__(self, *a):
+        for name, f in self.saved.items():
+            setattr(time, name, f)
+        return False
+
+
 def task_shim(spec, func, args, kwds):
     """Runs in the worker.  spec: None or dict(delay=float, raise_=(cls, msg), die=bool)."""
     from ticcmon import instrument
@@ -50,10 +84,21 @@ def task_shim(spec, func, args, kwds):
         if spec.get("raise_"):
             raise make_exc(*spec["raise_"])
     instrument.install_admm_monitor()      # no-op in forked workers (inherited); needed in spawned ones
+    entry = instrument.install_entry_monitor()
+    if func is getattr(entry, "_orig", None):
+        func = entry                       # first task of a worker: the unpickled reference still is the unwrapped entry point
     instrument.ADMM_LAST.clear()
-    result = func(*args, **kwds)
+    del instrument.ENTRY_LAST[:]
+    if spec and spec.get("clock_jump"):
+        # the machine's clocks jump ahead while the task runs (process suspended, laptop lid closed, a very slow node)
+        with jumping_clocks(float(spec["clock_jump"])):
+            result = func(*args, **kwds)
+    else:
+        result = func(*args, **kwds)
     rec = instrument.admm_exit_record()
     rec["pid"] = os.getpid()
+    rec["received"] = list(instrument.ENTRY_LAST)
+    rec["blas_threads"] = os.environ.get("OPENBLAS_NUM_THREADS")
     try:
         result._ticcmon = rec
     except Exception:  # result type does not accept attributes: no record
